@@ -59,6 +59,12 @@ type c14Decor struct {
 	gpExtra  string
 	trailer  []string
 	pcInPath uint64 // if non-zero, file paths contain " pc=0x<this> " (set by the test: a value that relocates into the text segment)
+	// strayAfter > 0: one unpaired line (strayText) follows the strayAfter-th frame of the report, so that every later
+	// symbol line of that goroutine sits where a location line is expected; argsPC != 0: the argument text of the
+	// frames after it ends in " pc=0x<argsPC>" (set by the test; the only thing that differs between two renderings)
+	strayAfter int
+	strayText  string
+	argsPC     uint64
 }
 
 func c14Render(r *c14Report, d *c14Decor) string {
@@ -82,7 +88,11 @@ func c14Render(r *c14Report, d *c14Decor) string {
 				fmt.Fprintf(&sb, "%s(...)\n\t%s:%d\n", sym, d.file(n), 10+n)
 				continue
 			}
-			fmt.Fprintf(&sb, "%s%s\n\t%s:%d", sym, d.args(n), d.file(n), 10+n)
+			args := d.args(n)
+			if d.strayAfter > 0 && n > d.strayAfter && d.argsPC != 0 {
+				args = fmt.Sprintf("(0x%x, user=%s pc=0x%x", n, d.strayText[:3], d.argsPC)
+			}
+			fmt.Fprintf(&sb, "%s%s\n\t%s:%d", sym, args, d.file(n), 10+n)
 			if f.relpc {
 				fmt.Fprintf(&sb, " +0x%x", 16*n+5)
 			}
@@ -90,6 +100,9 @@ func c14Render(r *c14Report, d *c14Decor) string {
 				fmt.Fprintf(&sb, " fp=0xc0000%02xf88 sp=0xc0000%02xf60 pc=0x%x", n, n, f.pc)
 			}
 			sb.WriteString("\n")
+			if d.strayAfter == n {
+				sb.WriteString(d.strayText + "\n")
+			}
 		}
 		if g.created {
 			fmt.Fprintf(&sb, "created by %s in goroutine 1\n\t%s:%d +0x%x\n", d.rename("main.spawn"), d.file(99), 77, 0x44)
@@ -347,12 +360,27 @@ func TestVerifC14Structured(t *testing.T) {
 			d2.pcInPath = real[rapid.IntRange(0, len(real)-1).Draw(t, "pathPC2")] - sentinel() + r.parentSent + 1
 			vstats.Label("pcLikePathElement")
 		}
+		stray := false
+		if rapid.IntRange(0, 7).Draw(t, "strayLine") == 0 {
+			// odd line pairing: the same unpaired line in both renderings, after the same frame; what differs is
+			// argument text that happens to end like a location line. Only the metamorphic clause applies.
+			stray = true
+			d1.strayAfter = rapid.IntRange(1, 6).Draw(t, "strayAfter")
+			d1.strayText = rapid.SampledFrom([]string{"runtime: unexpected return pc", "\t...additional frames elided", "fatal: morestack on g0", "abc", "created by nobody"}).Draw(t, "strayText")
+			d2.strayAfter, d2.strayText = d1.strayAfter, d1.strayText
+			d1.argsPC = real[rapid.IntRange(0, len(real)-1).Draw(t, "argsPC1")] - sentinel() + r.parentSent
+			d2.argsPC = real[rapid.IntRange(0, len(real)-1).Draw(t, "argsPC2")] - sentinel() + r.parentSent + 1
+			vstats.Label("strayLine")
+		}
 		text1, text2 := c14Render(r, d1), c14Render(r, d2)
 		n1, e1 := c14Name(t, text1)
 		n2, e2 := c14Name(t, text2)
 		c14CheckShape(t, n1, e1, text1)
 		c14CheckShape(t, n2, e2, text2)
 		pcs, verdict := c14Expected(r)
+		if stray {
+			verdict = "metamorphic-only"
+		}
 		if len(pcs) > 16 {
 			pcs = pcs[:16]
 		}
